@@ -180,7 +180,9 @@ def _endwhile(ctx=None):
     getcontext(ctx).stack.pop().end()
     
 def _breakif(cond,ctx=None):
-    getcontext(ctx).stack[-1]._while(1-cond)
+    # keep a secret condition boolean-typed: 1-cond is an integer expression, and a loop that was opened with a public
+    # condition (while True, a public range) would and it with True into a plain LinComb that is not a valid guard
+    getcontext(ctx).stack[-1]._while(~cond if isinstance(cond,LinCombBool) else 1-cond)
 
 class ObliviousIterator():
     def __init__(self, start, stop, max, ctx, checkstopmax):
